@@ -7,6 +7,15 @@ ENGINES = [
 NOT_APPLICABLE = {}
 _NOTE = 'Trusted base: compiler + sanitizer runtimes, the engine in harness/engine.h, and the independent reference oracle named in the technique (self-tested at every start). Verdict is "held on everything explored", not absence.'
 TEXT = {
+ 'C09': dict(engine='pbt', design_ref='DESIGN.md 5/C09',
+   technique='property-based testing in both directions against an independent strict RFC 4180 parser and free-choice writer',
+   level_text='~2*10^5 generated tables per quick run: what the library writes (decoded per configured encoding/BOM) must parse under a strict RFC 4180 reference into exactly the original header and cells; what an independent writer renders with random quoting, LF/CRLF, final break and column order must load (by name, into maps and a typed struct with a different request order) to the same rows from memory and from encoded streams; records with a wrong field count must be rejected with ParsingError.',
+   level_note=_NOTE),
+ 'C10': dict(engine='pbt', design_ref='DESIGN.md 5/C10',
+   technique='differential property-based testing: in-memory entry point vs stream entry points over padded and mutated documents',
+   level_text='~2.4*10^5 documents per quick run, each loaded through the memory reader and through a stream reader fed by a stringstream, a streambuf that returns 1..k bytes per call, or a non-seekable streambuf; a padding member of 0..600 bytes moves every key, length prefix, multi-byte character and quoted field across the 256-byte chunk boundary; valid documents must load to the saved value through both, mutated ones must be loaded identically or rejected by both; stream saving must equal memory saving byte for byte.',
+   level_note=_NOTE),
+
  'C13': dict(engine='pbt', design_ref='DESIGN.md 5/C13',
    technique='property-based testing with boundary-placed texts against an independent UTF encoder; truncation enumeration; bounded-progress counter for hangs',
    level_text='~5*10^5 generated streams per quick run: texts sized and composed so that 2/3/4-byte and surrogate-pair characters straddle the reader chunk boundary, in 5 encodings with/without BOM, read through CEncodedStreamReader for three target widths and three chunk sizes from ordinary and short-read streambufs; cut at arbitrary bytes under both policies; written through CEncodedStreamWriter; detected by DetectEncoding; and foreign-encoded CSV/JSON/XML documents loaded through the archive stream entry points.',
